@@ -115,6 +115,8 @@ type World struct {
 	dialCount map[string]int
 	eps       []endpoint
 	nextID    int
+	// udpClosed: when the proxy closed a datagram socket, by local port
+	udpClosed map[uint16]time.Duration
 
 	ProxyAddr4 netip.Addr
 	ProxyAddr6 netip.Addr
